@@ -23,7 +23,18 @@ XFHS = [None, 'pub.example', 'pub.example, inner.lan']
 KINDS = ['open', 'poll', 'post', 'upgrade', 'options', 'options_sid']
 
 
+RAISING = ('null', 'http://evil.example')      # origins on which the raising predicate fails with a TypeError
+
+
+def _raising_predicate(o):
+    if o in RAISING:
+        raise TypeError('this predicate cannot judge %r' % (o,))
+    return o == LISTED
+
+
 def cfg_value(cfg):
+    if cfg == 'callable_raises':
+        return _raising_predicate
     return {'none': None, 'star': '*', 'string': LISTED, 'list': [LISTED, 'http://h'],
             'callable': (lambda o: o == LISTED), 'empty': []}[cfg]
 
@@ -53,6 +64,9 @@ def classify(origin, cfg, host, xfp, xfh):
         return 'ambiguous'
     if cfg == 'star':
         return 'allowed'
+    if cfg == 'callable_raises':
+        # a predicate that raises has not allowed the origin: the request is not admitted (how it fails is not judged)
+        return 'raises' if origin in RAISING else 'allowed' if origin == LISTED else 'disallowed'
     if cfg == 'none':
         allowed = set()
         if host is not None:
@@ -141,7 +155,15 @@ def run_cases(impl, cfg, cred, cases, out, stats):
                     {'impl': impl, 'cfg': cfg, 'cred': cred, 'case': [oname, host, xfp, xfh, kind]},
                     weight=(0, 0)))
             dirty = True
-            if h.exc:
+            if cls == 'raises':
+                acao = [v for k, v in rh if k.lower() == 'access-control-allow-origin']
+                if acao:
+                    V('acao_overgrant', 'Access-Control-Allow-Origin %r for an Origin on which the predicate raised' % (acao,))
+                if not h.exc and status == 200:
+                    V('disallowed_origin_admitted', 'status 200 for an Origin on which the predicate raised (TypeError)')
+                if snapshot(w) != before:
+                    V('disallowed_origin_had_effect', 'session state / event log changed although the predicate raised')
+            elif h.exc:
                 V('exception_escaped', 'raised %s at %s' % (h.exc['type'], h.exc['site']))
             else:
                 acao = [v for k, v in rh if k.lower() == 'access-control-allow-origin']
@@ -373,6 +395,10 @@ def run(ctx):
                     return classify(origin_value(o, host, xfp, xfh), cfg, host, xfp, xfh) != 'disallowed'
                 for part in parallel.split(sorted(prod, key=key), 4):
                     jobs.append((impl, cfg, cred, sorted(part, key=key)))
+    # a predicate that raises for some origins: those requests are not admitted, have no effect and get no grant
+    prod_r = [c for c in prod if c[0] in ('null', 'foreign', 'listed', 'absent', 'same') and c[1] == 'h' and c[2] is None]
+    for impl in ('sync', 'async'):
+        jobs.append((impl, 'callable_raises', True, prod_r))
     for impl in ('sync', 'async'):
         for cfg in CFGS:
             jobs.append((impl, cfg, True, 'PAIRS'))
